@@ -393,6 +393,14 @@ func hasCall(x ast.Expr) bool {
 func (e *Exec) compare(op token.Token, a, b Val, ta, tb types.Type) Val {
 	// two slice values (specifications only; Go itself compares slices only against nil): same header
 	if sa, ok := a.(SliceV); ok {
+		if sb, ok := b.(SliceV); ok && sa.Base == "0" && sb.Base != "0" {
+			// nil == s
+			r := mkEq(sb.Base, "0")
+			if op == token.NEQ {
+				r = mkNot(r)
+			}
+			return bv(r)
+		}
 		if sb, ok := b.(SliceV); ok && sa.Base != "0" && sb.Base != "0" {
 			r := mkAnd(mkEq(sa.Base, sb.Base), mkEq(sa.Off, sb.Off), mkEq(sa.Len, sb.Len))
 			if op == token.NEQ {
